@@ -37,6 +37,7 @@ type crashInput struct {
 	MaxDoc    int    `json:"maxdoc"`
 	KillPoint string `json:"kill_point"` // txn.begin | txn.precommit | txn.committed | cas.beforeSetLastCas | cas.beforePost
 	KillNth   int    `json:"kill_nth"`
+	ReopenCreateOrOpen bool `json:"reopen_create_or_open,omitempty"` // the fresh process opens the bucket with CreateOrOpen instead of ReOpenExisting
 	KillLast  bool   `json:"kill_last,omitempty"` // false: count occurrences from the start; true: count only inside the last step
 }
 
@@ -323,7 +324,11 @@ func execCrash(in crashInput, scratch string) (Case, error) {
 	rosmar.VerifResetHLC(0)
 	k := &kvRun{in: kvInput{OnDisk: true, Handles: 1}, dir: dir, name: name, feeds: map[string]*liveFeed{},
 		lastCas: map[string][]uint64{}, cells: map[string]bool{}, class: map[string]string{}}
-	h, err := rosmar.OpenBucket("rosmar://"+filepath.Join(dir, "b"), name, rosmar.ReOpenExisting)
+	var mode rosmar.OpenMode = rosmar.ReOpenExisting
+	if in.ReopenCreateOrOpen {
+		mode = rosmar.CreateOrOpen
+	}
+	h, err := rosmar.OpenBucket("rosmar://"+filepath.Join(dir, "b"), name, mode)
 	if err != nil {
 		c.Notes = append(c.Notes, "reopen failed: "+err.Error())
 		c.Fatal = "the bucket could not be reopened after the kill: " + err.Error()
@@ -402,6 +407,7 @@ func genCrash(r *rand.Rand) crashInput {
 			in.Ops = append(in.Ops, st)
 		}
 	}
+	in.ReopenCreateOrOpen = r.Intn(2) == 0
 	in.KillPoint = pick(r, []string{"txn.begin", "txn.precommit", "txn.committed", "cas.beforeSetLastCas", "cas.beforePost"})
 	in.KillNth = 1 + r.Intn(2*len(in.Ops)+1)
 	if len(in.Ops) > 0 && r.Intn(2) == 0 {
